@@ -291,6 +291,14 @@ func (prop) Generate(rng *core.Rand, tier string, emit func(string)) {
 			emit(genDy(prx))
 			continue
 		}
+		if k%24 == 11 {
+			emit(genPd(prx))
+			continue
+		}
+		if k%24 == 23 {
+			emit(genWr(prx))
+			continue
+		}
 		if k%12 == 2 {
 			if (k/12)%2 == 0 {
 				emit(genCf(prx))
